@@ -37,6 +37,7 @@ fn main() {
                 std::process::exit(2);
             }
         },
+        Some("bench") => selftest::bench(),
         Some("check") => {
             let prop = args.get(2).expect("property id").clone();
             if props::scenarios(&prop, tier).is_some() {
